@@ -271,6 +271,18 @@ Grid(bool thorough)
     }
   }
   if (!thorough) {
+    // a few very large bin counts with the slowly converging skews around 1 (the thorough tier has more)
+    for (long long n : {1000000LL, 3000000LL}) {
+      for (double alpha : {0.5, 1.0, 1.1, 1.2, 1.3, 2.0}) {
+        switch (ti++ % 4) {
+          case 0: GridCase<uint32_t>(n, alpha, "u32", true); break;
+          case 1: GridCase<uint64_t>(n, alpha, "u64", true); break;
+          case 2: GridCase<int32_t>(n, alpha, "i32", true); break;
+          default: GridCase<int64_t>(n, alpha, "i64", true); break;
+        }
+        if (failures > 20) goto done;
+      }
+    }
     // fine skew sweep (step 0.01 over [0, 3]) at two bin counts of the "n >= 1000" clause; the thorough tier sweeps every n
     for (long long n : {1000LL, 10000LL}) {
       for (int a = 0; a <= 300; ++a) {
